@@ -393,7 +393,7 @@ fn c14_bufslice_3() {
 //@ encodes: buf_slice_for_tuple!(8)
 //@ timeout: 1200
 #[kani::proof]
-#[kani::unwind(4)]
+#[kani::unwind(10)]
 fn c14_tuple8() {
     let mut t = (
         any_vec::<1>(), any_vec::<1>(), any_vec::<1>(), any_vec::<1>(), any_vec::<1>(), any_vec::<1>(), any_vec::<1>(), any_vec::<1>(),
